@@ -183,6 +183,20 @@ CLAIMS = {
    note=COMMON_NOTE + "hash.c is tied only by correspondence here (C05 proves the table refines a set); no real threads or live NSS; allocation failures not exercised. Observations: double destroy of the lookup buffers if the second gettimeofday of _gids_map_create fails (unreachable without a failing gettimeofday); a SIGHUP during a running refresh leaves a second refresh chain.",
    technique="Lean 4 theorems (fold/induction over databases, interleaving invariant) on kernels and loop fragments translated from the C source each run + differential correspondence with scripted NSS",
    ref="5/C17"),
+
+ "C11": dict(
+   text="Proof (PARTIAL: isolation and serialisability are proved at the granularity of mutex-protected sections; data races in the C are shown by ThreadSanitizer on explored schedules only). "
+        "Theorems (Props/C11.lean) over a system of m in-flight requests built on the credential model (private record + program counter over recv / front+mid / gid lookup / replay insert / send / "
+        "roll-back; shared = replay set, gid-map version, PRNG stream): ISOLATION - a request's private record and reply are a function of its own bytes, peer, clock reads and its own observations "
+        "of shared state, whatever the other requests are, for every schedule; no_foreign_bytes; SERIALISABLE - when every reply is deliverable the replies and final replay set of any schedule equal "
+        "the sequential execution in linearisation order; the exact statement that still holds with undeliverable replies; and rollback_anomaly: the full-strength statement is FALSE of the code "
+        "when a send fails (known finding F10). Generated every run from the 38 translation units: thread roots, the 38 mutable globals each classified init-only / mutex-guarded (with lock "
+        "certificates) / sync object / atomic flag / confined, the request path cut at the shared-state interface; `decide` theorems over that data (shared_vars_covered etc.). Tie: k real "
+        "_job_exec calls on k threads with per-thread scripted environment and gates forcing the schedule, ~3000 forced scenarios byte-exact vs model + per-client oracle, 120 free-running "
+        "scenarios under ASan; thorough: the same harness under ThreadSanitizer (8-16 threads, concurrent purge, gid swaps, logging).",
+   note=COMMON_NOTE + "Mutex exclusion is trusted; no alias analysis in the shared-variable extraction; gids_is_member is a mutex-guarded stub in this harness (the real one is certified statically and exercised in C17/C04); TSan runs in the thorough tier (quick: only when a generated obligation breaks). Known finding F10 (rollback anomaly, design-level) is listed in known_findings.json; F11 (log latch race) found and fixed.",
+   technique="Lean 4 frame/serialisability theorems over interleavings + decide over shared-variable and lock data regenerated from the C source + forced-schedule differential correspondence + ThreadSanitizer",
+   ref="5/C11"),
 }
 NA_REASON = "check not built yet (work in progress, see DESIGN.md section 7 staging)"
 
